@@ -19,7 +19,7 @@ def run(rep):
     syntactic.caught_exceptions_do_not_escape(rep)
     q = rep.tier == 'quick'
     if os.path.exists(os.path.join(fw.VERIF, 'standin', 's_c03.py')):
-        fw.standin(rep, 's_c03.py', ['run', rep.seed, 250 if q else 4000],
+        fw.standin(rep, 's_c03.py', ['run', rep.seed, 1000 if q else 6000],
                    'fault enumeration: programs x abandonment point k (close / drop / consumer exception / raising predicate)',
                    'F1/F2/F3 programs, every k in 0..#answers; all variables created during the run inspected')
     fin = [r for r in rep.obligations if '.exit.' in r['name'] or 'discipline' in r['name'] or 'finalised' in r['name']]
